@@ -31,12 +31,15 @@ struct __attribute__((packed)) inputs { uint8_t sha384; int32_t rc_extract; };
 static struct inputs g_in;
 static ssl_t g_ssl;
 struct call { const unsigned char *secret, *tr; unsigned trLen, labelLen; const char *label; int seen; };
-static struct { int n; struct call cli, srv, oth; unsigned char *oth_out; int extract; const unsigned char *ex_salt, *ex_ikm; unsigned char *ex_out; int n_at_extract; } gh;
+static struct { int n; struct call cli, srv, oth; unsigned char *oth_out; int extract; const unsigned char *ex_salt, *ex_ikm; unsigned char *ex_out; int n_at_extract; unsigned ex_saltLen, ex_ikmLen; int ex_ikm_zero; } gh;
 
 int32_t psHkdfExtract(psCipherType_e hmacAlg, const unsigned char *salt, psSize_t saltLen, const unsigned char *ikm, psSize_t ikmLen,
     unsigned char *prk, psSize_t *prkLen)
 {
+    unsigned k;
     gh.extract++; gh.n_at_extract = gh.n; gh.ex_salt = salt; gh.ex_ikm = ikm; gh.ex_out = prk;
+    gh.ex_saltLen = saltLen; gh.ex_ikmLen = ikmLen; gh.ex_ikm_zero = 1;
+    for (k = 0; k < MAX_TLS_1_3_HASH_SIZE; k++) { if (k < ikmLen && ikm[k] != 0) { gh.ex_ikm_zero = 0; } }
     *prkLen = g_in.sha384 ? 48 : 32;
     return g_in.rc_extract < 0 ? PS_FAILURE : PS_SUCCESS;
 }
@@ -63,6 +66,7 @@ __CPROVER_ensures(outSecret == g_ssl.sec.tls13AppTrafficSecretClient ? (REC(cli)
 #define POSTS(P) \
     P(first_stage_is_derived_from_handshake_secret, IMPLIES(gh.oth.seen, LBL(oth, derivedLabel, derivedLabelLen) && gh.oth.secret == g_ssl.sec.tls13HandshakeSecret && gh.oth.trLen == 0)) \
     P(master_secret_is_extract_of_derived,  IMPLIES(gh.extract >= 1, gh.extract == 1 && gh.n_at_extract == 1 && gh.oth.seen && gh.ex_salt == gh.oth_out && gh.ex_out == g_ssl.sec.tls13MasterSecret)) \
+    P(master_secret_input_is_hash_length_zero_bytes, IMPLIES(gh.extract >= 1, gh.ex_saltLen == HL && gh.ex_ikmLen == HL && gh.ex_ikm_zero)) /* RFC 8446 7.1: "0" indicates a string of Hash.length bytes set to zero */ \
     P(client_secret_uses_c_ap_traffic,      IMPLIES(gh.cli.seen, LBL(cli, cApTrafficLabel, trafficLabelLen) && gh.cli.secret == g_ssl.sec.tls13MasterSecret && gh.cli.tr == g_ssl.sec.tls13TrHashSnapshot && gh.cli.trLen == HL && gh.extract == 1)) \
     P(server_secret_uses_s_ap_traffic,      IMPLIES(gh.srv.seen, LBL(srv, sApTrafficLabel, trafficLabelLen) && gh.srv.secret == g_ssl.sec.tls13MasterSecret && gh.srv.tr == g_ssl.sec.tls13TrHashSnapshot && gh.srv.trLen == HL && gh.extract == 1)) \
     P(done_flag_only_after_all_stages,      IMPLIES(g_ssl.sec.tls13KsState.deriveAppTrafficSecretsDone && !OLD(g_ssl, sec.tls13KsState.deriveAppTrafficSecretsDone), gh.n == 3 && gh.cli.seen && gh.srv.seen && gh.oth.seen && gh.extract == 1 && RET == PS_SUCCESS))
